@@ -14,6 +14,8 @@ for sid in ids:
     own = m.get("property")
     if own in props:
         props.remove(own); props.insert(0, own)
+    if os.environ.get("REEVAL_OWN_ONLY") and own:
+        props = [own]  # quick regression: only the check of the property the change was written against
     r = subprocess.run([sys.executable, os.path.join(ROOT, "tools", "eval_mutant.py"), os.path.join(ROOT, "seeded", sid), sid,
                         "--props", ",".join(props), "--skip-confirm"], capture_output=True, text=True)
     after = {}
@@ -23,7 +25,7 @@ for sid in ids:
         pass
     if not after:
         print(sid, "ERROR", r.stdout[-300:].replace("\n", " | "), flush=True); bad += 1; continue
-    lost = [k for k in before if before[k] and not after.get(k)]
+    lost = [k for k in before if before[k] and k in after and not after.get(k)]
     flag = "LOST:" + ",".join(lost) if lost else "ok"
     if lost: bad += 1
     print(sid, flag, " ".join(f"{k}={'D' if v else 'm'}" for k, v in after.items()), flush=True)
